@@ -422,6 +422,24 @@ func c17() []*Ob {
 						if !okTotal {
 							c.Violation("order:MergeQPRs:total-correction", fn.Pos(), "the total is no longer corrected by the number of removed repeats")
 						}
+						// no way out that skips the dedup once ids have been added
+						dd := rr[0].(ssa.Instruction)
+						for _, b := range fn.Blocks {
+							ret, isRet := b.Instrs[len(b.Instrs)-1].(*ssa.Return)
+							if !isRet || Dominates(dd, ret) {
+								continue
+							}
+							for _, st := range InstrsIn(fn, FieldStore("seq.QPR", "IDs")) {
+								added := DerivesFrom(st.(*ssa.Store).Val, func(v ssa.Value) bool {
+									cl, ok := v.(ssa.CallInstruction)
+									return ok && CallName(cl) == "builtin.append"
+								})
+								if added && (st.Block() == b || Reachable(st.Block(), b)) {
+									c.Violation("order:MergeQPRs:return-skips-dedup", ret.Pos(), "MergeQPRs can return after it has appended the partial results' ids without removing repeated ids (and without correcting total and histogram): a 'the concatenation is already in order' shortcut lets through the repeat that sits exactly on the border of two partial results — the last id of one and the first of the next — which is where a re-delivered document of two neighbouring fractions lands")
+									break
+								}
+							}
+						}
 						// sort precedes dedup (adjacent-duplicate removal needs order)
 						var sorts []ssa.Instruction
 						for _, sc := range CallsIn(fn, Callee("sort.Sort", "sort.Stable", "slices.SortFunc", "sort.Slice")) {
